@@ -202,6 +202,14 @@ def raw_graph(case):
                     G.nodes[n].pop(key, None)
                 else:
                     G.nodes[n][key] = val
+        elif mu == "set-arc":                 # role / stoich / direction of one arc set to a given combination (None = attribute absent)
+            role, st, flip = case["attrs"]
+            u, v = arcs[pick % len(arcs)]
+            d = {k2: v2 for k2, v2 in (("role", role), ("stoich", st)) if v2 is not None}
+            G.remove_edge(u, v)
+            if flip and not G.has_edge(v, u):
+                u, v = v, u
+            G.add_edge(u, v, **d)
         elif mu == "self-loop":
             G.add_edge(rn[pick % len(rn)], rn[pick % len(rn)], role="product", stoich=2)
         else:
@@ -345,4 +353,19 @@ def exhaustive_attributes():
                 for und in (None, "graph"):
                     out.append(dict(kind="raw-graph-exh", name="raw-exh/%s/%s/%s/%s" % (which, kd, fl, und or "digraph"), rxns=rx, iso=[],
                                     view="bip_int", mut=["set-attrs"], attrs=[which, kd, fl], pick=0, **({"und": und} if und else {})))
+    return out
+
+
+def exhaustive_arc_attributes():
+    """ALL 32 combinations of role in {reactant, product, other, absent} x stoich in {absent, 1, 2, 2.5} x direction in {kept,
+    reversed} on each of the three arcs of A + B -> C, as DiGraph and as undirected Graph (192 cases)."""
+    out = []
+    rx = G.net_from_strings(["A + B >> C"], "raw-graph")["rxns"]
+    for pick in range(3):
+        for role in ("reactant", "product", "other", None):
+            for st in (None, 1, 2, 2.5):
+                for flip in (False, True):
+                    for und in (None, "graph"):
+                        out.append(dict(kind="raw-graph-exh", name="raw-exh-arc/%d/%s/%s/%s/%s" % (pick, role, st, flip, und or "digraph"), rxns=rx,
+                                        iso=[], view="bip_int", mut=["set-arc"], attrs=[role, st, flip], pick=pick, **({"und": und} if und else {})))
     return out
